@@ -413,6 +413,11 @@ fn run_history(s: &Spec) -> (Case, Obs, Obs, Obs, (u64, u64), (u64, u64)) {
 }
 
 pub fn run(cli: Cli) -> ! {
+    run_with(cli, &|_| {})
+}
+
+/// `extra` adds to the same report (netsim hosts this check and adds whole connections through the assembled router)
+pub fn run_with(cli: Cli, extra: &dyn Fn(&Report)) -> ! {
     let rep = Report::new("C10", cli.tier, "model_checking");
     if let Some(case) = cli.replay.clone() {
         let s: Spec = serde_json::from_value(case["spec"].clone()).unwrap_or_else(|e| common::machinery(&format!("bad replay: {e}")));
@@ -468,5 +473,6 @@ pub fn run(cli: Cli) -> ! {
     rep.sample(json!({"spec": all[all.len() - 1], "note": "second connection after expiry (2.1 s of real time, expiry 0)"}));
     rep.assume("on the cookie-authenticated path the presence of a refreshed cookie is not judged (if one is issued it must verify and carry the cookie's identity)");
     rep.assume("timestamps are checked against the wall-clock bracket of the run");
+    extra(&rep);
     rep.finish()
 }
